@@ -351,6 +351,9 @@ def run_stab(ctx, d):
         from xplique.metrics import AverageStability
         tf.random.set_seed(d["case_seed"] % (1 << 30))
         m = AverageStability(model, x, y, batch_size=d["bs"], radius=d["radius"], distance=dist_arg, nb_samples=nb)
+        if d.get("prior"):
+            # the metric object was already used with ANOTHER explainer (added after a seeded memoisation was missed)
+            m(lambda inp, lab: np.asarray(inp, dtype=np.float32) * np.float32(0.5))
         base = None if d["base_given"] is False else explainer(x, y)
         calls.clear()
         return m, (m.evaluate(explainer, base) if base is not None else m(explainer))
@@ -449,6 +452,7 @@ def gen_cases(ctx):
              "dist": ["l1", "l2", "linf"][ci % 3 if ci < 6 else int(rng.integers(3))],
              "bs": [None, 1, 2, 64][int(rng.integers(4))],
              "explainer": "const" if rng.random() < 0.25 else "grad", "base_given": bool(rng.random() < 0.5),
+             "prior": bool(rng.random() < 0.4),
              "case_seed": int(rng.integers(1 << 31))}
         cases.append(d)
     return cases
